@@ -13,9 +13,9 @@ import (
 // Importer converts native Go values (built by the real code, natively) into interpreter values.
 type Importer struct {
 	prog  *ssa.Program
-	memo  map[unsafe.Pointer]Ptr     // pointer identity
-	maps  map[unsafe.Pointer]*MapV   // map identity
-	named map[string]types.Type      // pkgpath.Name -> types.Type
+	memo  map[unsafe.Pointer]Ptr   // pointer identity
+	maps  map[unsafe.Pointer]*MapV // map identity
+	named map[string]types.Type    // pkgpath.Name -> types.Type
 	count int
 }
 
